@@ -330,6 +330,7 @@ def run_worker(ctx: core.WorkerContext):
             self.history.append(op)
             self.results.append((status, value))
             self.pending = (status, value)
+            compare_with_fresh(self.cfg, self.history, self.obj, status, value, self.res)
             epoch_repeat_check(self.history, self.results, self.res)
             interpolator_follows_latest_recovery(self.history, self.results, self.res)
             if len(self.history) > 1 and self.history[-2] == op and op[0] not in ("sim", "setsim") and self.prev and self.prev[0] == "ok" and status == "ok":
@@ -368,6 +369,18 @@ def run_worker(ctx: core.WorkerContext):
         def interpolator(self, q):
             self._do(["interp", q])
 
+        # bursts of two to four recovery / interpolator calls within one simulation (every call is compared with the
+        # fresh-object model as it is made): orders such as rf, rf(density), rf, interpolator would otherwise be rare
+        @precondition(lambda self: self.cfg is not None)
+        @rule(ops=st.lists(st.sampled_from(["rf", "rfd", "interp", "rf", "rfd"]), min_size=2, max_size=4), q=queries)
+        def recovery_burst(self, ops, q):
+            for name in ops:
+                if name == "rfd" and not has_density(self.cfg):
+                    name = "rf"
+                self._do([name, q] if name == "interp" else [name])
+                if self.res.violations:
+                    break
+
         @precondition(lambda self: len(self.history) > 0 and self.history[-1][0] not in ("sim", "setsim"))
         @rule()
         def repeat_last(self):
@@ -377,9 +390,7 @@ def run_worker(ctx: core.WorkerContext):
         def agrees_with_fresh_object(self):
             if self.pending is None or self.cfg is None:
                 return
-            status, value = self.pending
             self.pending = None
-            compare_with_fresh(self.cfg, self.history, self.obj, status, value, self.res)
             case = {"config": self.cfg, "history": [list(o) for o in self.history]}
             new = ctx.triage(case, self.res)
             if new:
